@@ -242,6 +242,7 @@ func schedEvidence(tw *toolWorld) map[string]any {
 		"unsupported_constructs": r.TaskUnsupported, "channel_operations_rewritten": r.ChanOps, "select_statements_rewritten": r.Selects, "time_calls_rewritten": r.TimeCalls,
 		"runs_with_goroutines": t.RunsWithTasks, "tasks_spawned": t.Spawned, "task_switches": t.Switches, "timers_fired": t.TimersFired,
 		"timers_fired_while_tasks_were_runnable": t.EarlyFires, "blocked_polls": t.Polls,
-		"note": "on a tree without go statements and timers in main/ast/builder the seam is linked but idle; otherwise every goroutine of those packages is a task of a seeded cooperative scheduler (package simtask)",
+		"sync_uses": r.SyncUses,
+		"note": "the seam is active when main/ast/builder contain go statements, timers or uses of package sync (the pinned tree: only the sync.Pool of the generated front-end parser, no go statement, no timer): every goroutine of those packages, and the second build of the concurrent library-style double build (C19), is a task of a seeded cooperative scheduler (package simtask), preempted at instrumentation steps; locks of package sync are cooperative",
 	}
 }
